@@ -258,6 +258,10 @@ class Ctx:
         self.notes: list[str] = []
         kf = VERIF / "known_findings.json"
         self.known = [k for k in json.loads(kf.read_text())["findings"] if k.get("property") == prop] if kf.exists() else []
+        extra = os.environ.get("SOLVOR_KNOWN")  # developer aid: test proposed findings before they are merged
+        if extra and Path(extra).exists():
+            ex = json.loads(Path(extra).read_text())
+            self.known += [k for k in (ex["findings"] if isinstance(ex, dict) else ex) if k.get("property") == prop]
         self.budget_scale = {"quick": 1, "thorough": 12}[tier]
         self.trace_div: list[dict] = []
 
